@@ -177,6 +177,21 @@ func GenFS(r *core.Rand, dir string, cfg *FSCfg) *FSLayout {
 				used = true
 			}
 		}
+		if used && cfg.Decoys && r.Chance(1, 4) {
+			// neighbours in one directory with different per-file answers: a kept go-test main next to a test helper
+			// (standard library vs GOPATH), and two files lying directly in src/ (the import path of each is the
+			// one of its own function)
+			d := fmt.Sprintf("gp%dpkg/github.com/kept/t%d/_test/", i, r.Intn(3))
+			writeFile(lp+"/src/"+d+"_testmain.go", "package main\n")
+			writeFile(lp+"/src/"+d+"helper_test.go", "package main\n")
+			addFrame(FSFrame{Remote: remote + "/src/" + d + "_testmain.go", Local: lp + "/src/" + d + "_testmain.go", Rel: d + "_testmain.go", Import: "main", Class: FSStdlib, Exists: true, Pkg: "main", Explains: remote, TestMain: true})
+			addFrame(FSFrame{Remote: remote + "/src/" + d + "helper_test.go", Local: lp + "/src/" + d + "helper_test.go", Rel: d + "helper_test.go", Import: filepath.Dir(d + "x"), Class: FSGOPATH, Exists: true, Pkg: filepath.Dir(d + "x"), Explains: remote})
+			for _, n := range []string{"a", "b"} {
+				f := fmt.Sprintf("rootfile%d_%s.go", i, n)
+				writeFile(lp+"/src/"+f, "package root"+n+"\n")
+				addFrame(FSFrame{Remote: remote + "/src/" + f, Local: lp + "/src/" + f, Rel: f, Import: "rootpkg" + n, Class: FSGOPATH, Exists: true, Pkg: "rootpkg" + n, Explains: remote})
+			}
+		}
 		// module cache
 		if !pairOnly && r.Chance(2, 3) {
 			n := 1 + r.Intn(3)
@@ -344,6 +359,13 @@ func (l *FSLayout) DumpFor(r *core.Rand) *Dump {
 	d := &Dump{F: Format{FileIndent: "\t"}}
 	perm := r.Perm(len(l.Frames))
 	ng := 1 + r.Intn(3)
+	if r.Chance(1, 3) {
+		// one goroutine, frames in the order the layout was built: files of one directory stay next to each other
+		ng = 1
+		for i := range perm {
+			perm[i] = i
+		}
+	}
 	used := map[int]bool{}
 	for g := 0; g < ng; g++ {
 		d.Gs = append(d.Gs, Goroutine{ID: GenID(r, used), State: "running"})
